@@ -73,6 +73,9 @@ def b_int(ip, args, kwargs, node):
     if isinstance(v, VReal):
         return VInt(trunc_to_int(v.term))
     if isinstance(v, VStr):
+        t = z3.simplify(v.term)
+        if z3.is_app(t) and t.decl().kind() == z3.Z3_OP_INT_TO_STR and ip.st.must(t.children()[0] >= 0):
+            return VInt(t.children()[0])        # int(str(n)) == n for n >= 0
         # int(str): defined for decimal digit strings; anything else raises ValueError
         ok = z3.StrToInt(v.term) >= 0
         if not ip.spec_mode and ip.st.branch(z3.Not(ok)):
@@ -124,6 +127,8 @@ def b_isinstance(ip, args, kwargs, node):
         if isinstance(c, VClass):
             names.append(c.name)
         elif isinstance(c, VBuiltin):
+            names.append(c.name)
+        elif isinstance(c, VModule):
             names.append(c.name)
         else:
             raise Unsupported(f"isinstance against {c!r}")
@@ -346,6 +351,8 @@ def ctor_timedelta(ip, args, kwargs, node):
 
 def td_total_seconds(ip, args, kwargs, node):
     td = args[0]
+    if getattr(ip.st, "float_model", "exact") == "ieee":
+        return ip.lib["__td_total_seconds_ieee__"](ip, td)
     ip.st.assumed_used.add("timedelta.total_seconds(): float result treated as the exact rational microseconds/10^6")
     return VReal(z3.ToReal(td.term) / US)
 
@@ -730,7 +737,8 @@ _orig_build = build_lib
 def build_lib():  # noqa: F811
     lib = _orig_build()
     lib.update(SPEC_LIB)
-    from . import loops, strings
+    from . import jsonmodel, loops, strings
     loops.install(lib)
     strings.install(lib)
+    jsonmodel.install(lib)
     return lib
